@@ -78,7 +78,7 @@ pub fn gen_val(s: &Shape, rng: &mut Rng, budget: usize) -> Val {
             let n = rng.below(4) as usize;
             let mut st = String::new();
             for _ in 0..n {
-                st.push_str(rng.pick(WORDS));
+                st.push_str(*rng.pick::<&str>(WORDS));
             }
             Val::Bytes(st.into_bytes())
         }
